@@ -329,7 +329,7 @@ def compile_tu(vu, work, extra_defs=(), out="tu.gb"):
 
 def discover_entries(vu, work):
     t = open(os.path.join(work, "tu.cpp")).read()
-    names = re.findall(r"(?m)^(?:extern \"C\" )?void (h_\w+)\s*\(\s*(?:void)?\s*\)", t) + re.findall(r"(?m)^[A-Z_0-9]+\((h_\w+),", t)
+    names = re.findall(r"(?m)^(?:extern \"C\" )?void (h_\w+)\s*\(\s*(?:void)?\s*\)", t) + [n for n in re.findall(r"(?m)^[A-Z_0-9]+\((h_\w+),", t) if not vu.get("macro_entries_listed")]
     ents = []
     over = {e["name"]: e for e in vu.get("entries", [])}
     for n in names:
@@ -339,7 +339,10 @@ def discover_entries(vu, work):
         ents.append(e)
     for n in over:
         if n not in names:
-            raise Undecided("vu-definition", "entry %s not found in tu.cpp" % n)
+            # entries produced by a macro: listed explicitly in vu.json
+            e = dict(vu.get("entry_defaults", {}))
+            e.update(over[n])
+            ents.append(e)
     if not ents:
         raise Undecided("vu-definition", "no h_* entries in %s" % vu["name"])
     return ents
